@@ -34,4 +34,7 @@ Definition render_req (q : request) : list N :=
   end.
 Definition render (o : outcome) : list (list N) :=
   [if failed o then 1 else 0] :: map render_req (sent o).
-Definition both (c : cmd) : list (list (list N)) := [render (run true c); render (run false c)].
+Definition both (cf : cmd * bool) : list (list (list N)) :=
+  let (c, fault) := cf in
+  let script := if fault then [AFault] else [] in
+  [render (run_reply true script c); render (run_reply false script c)].
